@@ -17,13 +17,13 @@ def chk(pid, category, text, note, technique, design, engine="vcheck"):
     }
 
 chk("C06", "exploration",
-    "Runs the real lib/interval methods on seeded (op, X, Y) cases and judges each result with a math/big oracle: sampled members must lie inside the result, finite boxes must give exactly the corner/enumerated hull (and/or: full enumeration of boxes up to 512 wide at any magnitude), the ok flag must equal 'no undefined pair', result bounds must not alias operand bounds, operands must be unchanged. Held on the executions observed, not a proof.",
+    "Runs the real lib/interval methods on seeded (op, X, Y) cases and judges each result with a math/big oracle: sampled members must lie inside the result, finite boxes must give exactly the corner/enumerated hull (and/or: full enumeration of boxes up to 512 wide at any magnitude), the ok flag must equal 'no undefined pair', result bounds must not alias operand bounds, operands must be unchanged, no panic. Besides the seeded sample, every pair of intervals with bounds from a set of machine-word corner values (0, +-1, +-2, +-5, +-2^k, +-(2^k +- 1) for k = 31, 63, 64; more in the thorough tier) and nil is enumerated for add/sub/mul/quo/and/or. Held on the executions observed, not a proof.",
     "Trusts math/big. Shift counts stay below ~2^9 (the implementation itself needs gigabytes beyond that); and/or boxes too wide to enumerate are checked for soundness only.",
     "runtime monitoring: reference-model oracle (math/big) over seeded executions of the real package", "DESIGN.md §5 C06")
 
 
 chk("C03", "exploration",
-    "Every std decoder and hasher is run, in the ASan+UBSan build and a -O2 build (allocator intercepted with --wrap) of the C generated from the working tree by the real `wuffs gen`, on test/data files, reference-encoder output, byte-level mutations, other formats and random bytes, under varied source splits, destination capacities, closed early/late, work-buffer sizes and memory pre-fills. Monitors: sanitizer reports, allocator calls during a call, 'internal error' statuses, short read on a closed fully supplied source, short write with nothing written into an empty 1 MiB destination, status class, per-job CPU budget. Held on the executions observed.",
+    "Every std decoder and hasher is run, in the ASan+UBSan build and a -O2 build (allocator intercepted with --wrap) of the C generated from the working tree by the real `wuffs gen`, on test/data files, reference-encoder output, byte-level mutations, other formats and random bytes, under varied source splits, destination capacities, closed early/late, work-buffer sizes and memory pre-fills; half of the jobs hand the decoder exact-size source allocations (the sanitizer's red zone sits right behind the last supplied byte at every split), and for a few small inputs per decoder EVERY split point is run that way, plus decodes with both streams in pieces of 1..40 bytes. Monitors: sanitizer reports, allocator calls during a call, 'internal error' statuses, short read on a closed fully supplied source, short write with nothing written into an empty 1 MiB destination, status class, per-job CPU budget. Held on the executions observed.",
     "Bounded work is a per-job CPU-time budget (not the step-counting checked build planned in DESIGN §3.1, which was not built). UBSan's nonnull-attribute check is off (memset(NULL,0,0) is not one of the behaviours the property lists). Red-zone sanitizers miss non-adjacent overflows.",
     "runtime monitoring: compiler sanitizers (ASan+UBSan) + allocator interposition + status/suspension monitors in a scripted C driver over hostile inputs", "DESIGN.md §5 C03, §3.4")
 chk("C05", "exploration",
@@ -31,19 +31,19 @@ chk("C05", "exploration",
     "Single-split sweeps are exhaustive per input; inputs and multi-split plans are sampled. Generated leg: coroutine programs that touch their streams only through `?` methods (incl. randomly structured bodies aimed at the liveness analysis) are run one-shot and under every single source/capacity split, byte-by-byte and random multi-splits in both C builds.",
     "runtime monitoring: differential oracle (chunked vs one-shot execution of the same compiled code) under ASan+UBSan", "DESIGN.md §5 C05")
 chk("C07", "exploration",
-    "Payload classes are pushed through independent reference encoders (Go flate/zlib/gzip/lzw/png/gif, /usr/bin bzip2 and xz) and decoded by the generated Wuffs decoders in the ASan+UBSan and -O2 builds; bytes/pixels, OK status and consumed count must match; Wuffs CRC-32/CRC-64/Adler-32/SHA-256 over random update partitions must equal Go's. Stream features (stored/fixed/dynamic blocks, 15-bit codes, distance 32768) are confirmed by scanning the encoded stream.",
+    "Payload classes are pushed through independent reference encoders (Go flate/zlib/gzip/lzw/png/gif, /usr/bin bzip2 and xz) and decoded by the generated Wuffs decoders in the ASan+UBSan and -O2 builds; bytes/pixels, OK status and consumed count must match; Wuffs CRC-32/CRC-64/Adler-32/SHA-256 over random update partitions, and over EVERY two-piece partition (plus three-piece partitions around the block boundaries) of 1..3-block payloads for block sizes 16/32/64/128, must equal Go's. Multi-block payloads (several hundred KB: 4+ bzip2 -1 blocks, xz block lists) are included in every run. Stream features (stored/fixed/dynamic blocks, 15-bit codes, distance 32768) are confirmed by scanning the encoded stream.",
     "Trusts the reference encoders to emit valid streams. PNG/GIF expectations are the pixels handed to the encoder (non-premultiplied sources).",
     "runtime monitoring: reference-model oracle (independent encoders + original payload) over executions of the generated C", "DESIGN.md §5 C07")
 chk("C08", "exploration",
-    "Seeded call histories (<=30 steps: garbage-filled memory, good/bad initialize, null/partial/closed/garbage buffers, coroutine and non-coroutine calls, re-initialise) are executed on every std struct; each status is checked against an explicit protocol state machine that constrains only what the property states, and the driver checks ri<=wi<=len, monotonic ri/wi, source bytes and already-written destination bytes after every call.",
+    "Seeded call histories (<=30 steps: garbage-filled memory, good/bad initialize, null/partial/closed/garbage buffers, coroutine and non-coroutine calls, re-initialise) are executed on every std struct; each status is checked against an explicit protocol state machine that constrains only what the property states, and the driver checks ri<=wi<=len, monotonic ri/wi, source bytes and already-written destination bytes after every call. Two further legs: decodes with source AND destination handed over in pieces of 1..40 bytes (exact-size source windows), and scripted call sequences through the metadata side-track of the image call sequence (PNGs with text/EXIF chunks before and after the pixel data, reporting opted in).",
     "Model state after a non-coroutine error is resynchronised from the object's magic word; call-sequence expectations only in exactly known states. std structs only (generated-object leg not wired).",
     "runtime monitoring: history checker (protocol state machine) + buffer-contract assertions over recorded call traces", "DESIGN.md §5 C08")
 chk("C09", "exploration",
-    "Each input is decoded under nine variants (zeroed+ALREADY_ZEROED, 0xFF memory, PRNG memory + LEAVE_INTERNAL_BUFFERS_UNINITIALIZED, re-initialised after another decode, differently pre-filled work/destination memory, SIMD vs AVOID_CPU_ARCH builds, -O1 sanitized vs -O2) and all must agree on output, statuses, consumed counts and getters; mutated JPEGs are compared within one build only (documented exception).",
+    "Each input is decoded under nine variants (zeroed+ALREADY_ZEROED, 0xFF memory, PRNG memory + LEAVE_INTERNAL_BUFFERS_UNINITIALIZED, re-initialised after another decode, differently pre-filled work/destination memory, SIMD vs AVOID_CPU_ARCH builds, -O1 sanitized vs -O2) and all must agree on output, statuses, consumed counts and getters; mutated JPEGs are compared within one build only (documented exception). Half of the transformer decodes run in several calls under one capacity plan shared by all variants; LZMA/XZ streams with a 4 KiB dictionary (maximum-length matches straddling the ring's wrap-around) are decoded by a client that drains a small destination buffer after every call, so that the history lives in the differently pre-filled work buffer.",
     "Which choose'n CPU variant ran is not read back; the CPU here has SSE4.2/AVX2/BMI2/PCLMUL. MSan/valgrind are deliberately not used (stricter than the property).",
     "runtime monitoring: differential oracle across memory/flag/CPU-path variants of the same decode", "DESIGN.md §5 C09")
 chk("C12", "exploration",
-    "wuffsfmt: std sources and seeded re-spacings/slices are rendered by the real token/parse/render packages; output must re-tokenize to the same tokens (numerics by value) and comments, parse, and be a fixed point. dumbindent: real C files, slices and a grammar of lexically closed snippets x options; output must equal the input up to per-line blanks and be a fixed point; hangs/OOM are verdicts via RLIMIT_CPU/RLIMIT_AS in an isolated child.",
+    "wuffsfmt: std sources and seeded re-spacings/slices are rendered by the real token/parse/render packages; output must re-tokenize to the same tokens (numerics by value) and comments, parse, and be a fixed point. dumbindent: real C files, slices and a grammar of lexically closed snippets x options; output must equal the input up to per-line blanks and be a fixed point; hangs/OOM are verdicts via RLIMIT_CPU/RLIMIT_AS in an isolated child. The two commands (cmd/wuffsfmt, cmd/dumbindent, built from the working tree) are run on 1-5 files per invocation in every mix and order of formatted / unformatted files in the -w, -l, -l -w and stdin modes: each file's content afterwards (or the output) must be what the package gives for that file alone, and -l must list exactly the files that differ.",
     "Only sources cmd/wuffsfmt accepts (tokenize+parse) are judged. Inputs to dumbindent never start with a blank line (the package drops leading blank lines by design and pins that in its own test).",
     "runtime monitoring: round-trip/idempotence oracles over seeded executions of the real formatter packages, resource limits as hang detector", "DESIGN.md §5 C12")
 chk("C14", "exploration",
@@ -59,7 +59,7 @@ chk("C16", "exploration",
     "Trusts compress/flate and compress/zlib as decoders. Limit sweeps are exhaustive per small stream.",
     "runtime monitoring: reference-model oracle (Go decoders + original payload) over seeded and per-stream-exhaustive executions", "DESIGN.md §5 C16")
 chk("C17", "exploration",
-    "Round trips over all lengths 0..1099, 64 KiB boundary lengths, carry-chain constructions and random payloads: Decode(Encode(x)) must return x with no remainder; the xz tool must decode the encoding to x; an independent XZ container walker checks framing, padding, CRCs, index and footer; mutated encodings and random bytes must not panic and output must stay within 4096*len+4096.",
+    "Round trips over all lengths 0..1099, 64 KiB boundary lengths, carry-chain constructions and random payloads: Decode(Encode(x)) must return x with no remainder; the xz tool must decode the encoding to x; an independent XZ container walker checks framing, padding, CRCs, index and footer; mutated encodings and random bytes must not panic and output must stay within 4096*len+4096. The XZ encoder's raw-vs-LZMA choice per 64 KiB chunk is swept across its boundary (a full chunk of z zeroes + incompressible bytes, z in a +-20 window around the point where both forms are equally long; alone and as the middle of three chunks).",
     "Third decoder leg: a bounded sample of the encodings (about 1000 quick / 24000 thorough) is decoded by the generated Wuffs std/lzma and std/xz decoders (ASan+UBSan build of the working tree's C). The xz tool leg runs on a subset in the quick tier.",
     "runtime monitoring: reference-model oracles (xz tool, own container walker, payload) + resource limits", "DESIGN.md §5 C17")
 chk("C18", "exploration",
@@ -71,28 +71,28 @@ chk("C19", "exploration",
     "IDAT limit taken as the 65528 named in the property. Trusts image/png as the standard decoder.",
     "runtime monitoring: reference decoder + independent structural walker over boundary-targeted executions", "DESIGN.md §5 C19")
 chk("C20", "exploration",
-    "The real wuffs-c and `wuffs gen`, built from the working tree, are run on every std package under repeated fresh processes, GOMAXPROCS 1/16, GOGC=1, altered environment, other working directory, and on tmpfs copies of std created in forward/reverse/shuffled order; outputs are compared by SHA-256; the regenerated release file must equal the committed snapshot, gen.go output must equal data.go, the argv a wuffs-c shim receives must list files sorted, and the verif-tagged tool with its switch off must be byte-identical.",
+    "The real wuffs-c and `wuffs gen`, built from the working tree, are run on every std package under repeated fresh processes, GOMAXPROCS 1/16, GOGC=1, altered environment, other working directory, and on tmpfs copies of std created in forward/reverse/shuffled order; outputs are compared by SHA-256; the regenerated release file must equal the committed snapshot, gen.go output must equal data.go, the argv a wuffs-c shim receives must list files sorted, and the verif-tagged tool with its switch off must be byte-identical. Generated programs of every scenario family (coroutines, several I/O arguments with explicit returns, iterate, choose, statuses, const tables) are each compiled by wuffs-c in ~10 fresh processes under varied GOMAXPROCS/GOGC/environment; a versioned release (`wuffs gen -version=0.4.0` in a scratch git repository whose commit was made at 23:30 UTC) must be the same bytes under TZ unset/UTC/+14/-12 and other LANG/HOME.",
     "Tools are single-threaded: scheduling variation is GOMAXPROCS/GC only. Beyond std: synthetic multi-struct packages with many statuses/consts (the map-heavy paths) and histories of tool runs on one root.",
     "runtime monitoring: repeated-run output comparison of the real tools under varied environments", "DESIGN.md §5 C20")
 
 chk("C01", "exploration",
-    "(a) Generated Wuffs programs (scenario families aimed at the checker's mechanisms: masked/clamped indexes, refined locals/fields/args/array elements, facts from assignments incl. self-referential ones, while pre/inv/post, aliasing stores, stale pure-call facts, ~mod shifts, coroutines and suspension, each as the safe form and as systematic near-misses) are given to the real checker; every accepted one is executed by a reference interpreter that evaluates every index, slice, arithmetic, conversion, assignment, argument and return obligation in ideal integers over edge/random arguments and call histories, and one in six also runs as ASan+UBSan C emitted by the real wuffs-c. (b) All of std, compiled as the checked build (the verif-tagged wuffs-c wraps every index, slice and + - * << >> / % site in a run-time assertion of its type-derived obligation) under ASan+UBSan, decodes the hostile corpus. Held on the executions observed; six genuine soundness holes found this way are repaired by fix: commits.",
+    "(a) Generated Wuffs programs (scenario families aimed at the checker's mechanisms: masked/clamped indexes, refined locals/fields/args/array elements, facts from assignments incl. self-referential ones, while pre/inv/post, aliasing stores, stale pure-call facts, ~mod shifts, coroutines and suspension, each as the safe form and as systematic near-misses; plus the enumerated fact-invalidation matrix M-kill = 7 kinds of target x 14 killer actions x straight-line/break/continue/fall-through x use/assert, the call-graph family with cycles through `choose` alternatives, signed refined arguments, hand-written programs) are given to the real checker; every accepted one is executed by a reference interpreter that evaluates every index, slice, arithmetic, conversion, assignment, argument and return obligation in ideal integers (and reports re-entry of a function that is still active) over edge/random arguments and call histories, and one in six also runs as ASan+UBSan C emitted by the real wuffs-c. (b) All of std, compiled as the checked build (the verif-tagged wuffs-c wraps every index, slice and + - * << >> / % site in a run-time assertion of its type-derived obligation) under ASan+UBSan, decodes the hostile corpus. Held on the executions observed; the genuine soundness holes found this way are repaired by fix: commits (known_findings.json).",
     "'For all programs' is sampled by a fixed list of scenario families; the second sentence of the property (unprovable programs are rejected) is only observed as 'no accepted near-miss misbehaved'. The checked build asserts ranges at index/slice/arithmetic sites, not refinements of stored values or I/O built-in pre-conditions (interpreter leg only). The interpreter is framework code trusted after validation against production C on the unchanged tree.",
     "runtime monitoring: obligation assertions evaluated during execution (reference interpreter in ideal integers; checked C build emitted through a build-tagged generator hook) + ASan/UBSan over accepted programs", "DESIGN.md §5 C01, §3.1-3.3, §9")
 chk("C02", "exploration",
-    "The verif hook in lang/check records the facts the checker holds before every statement. Generated programs accepted by the real checker are executed by the reference interpreter over edge/random arguments, call histories and suspension patterns; before every statement each recorded fact, every assert condition and every loop pre/inv/post condition is evaluated in ideal integers in the concrete state and must be true. Each axiom of the checker's reasons table is instantiated over all tuples of small refined arguments with each premise present and absent.",
+    "The verif hook in lang/check records the facts the checker holds before every statement. Generated programs accepted by the real checker are executed by the reference interpreter over edge/random arguments, call histories and suspension patterns; before every statement each recorded fact, every assert condition and every loop pre/inv/post condition is evaluated in ideal integers in the concrete state and must be true. Each axiom of the checker's reasons table is instantiated over all tuples of small refined arguments with each premise present and absent. The fact-invalidation matrix (every kind of target x every action that can falsify a fact about it x loop exits) and the if-reconciliation family are enumerated on every run, whatever the seed.",
     "Fact shapes the interpreter cannot evaluate are skipped and counted in the evidence. std's own facts are not evaluated (no fact emission in the checked C build).",
     "runtime monitoring: assertions on hooked checker state (recorded facts) evaluated online by a reference interpreter during execution of accepted programs", "DESIGN.md §5 C02, §3.2-3.3")
 chk("C04", "exploration",
-    "Generated Wuffs programs (safe variants of every scenario family, 1-3 scenarios per program) are compiled by the real wuffs-c and gcc (-O2 and ASan+UBSan) and driven through call histories incl. suspend/resume with edge/random arguments and I/O buffers; per call the C's return value / status string, source and destination ri/wi, hash of bytes written, slice argument contents and all getters are compared with the trace of a reference interpreter of the Wuffs semantics. Programs on which the interpreter raised a safety or fact event are excluded.",
+    "Generated Wuffs programs (every variant of every scenario family alone, seeded mixes of 1-3 scenarios, and ~60 hand-written programs with constructs no family emits: io_limit / io_bind, marks and undo, history copies, statuses as values, nested public coroutines) are compiled by the real wuffs-c and gcc (-O2 and ASan+UBSan) and driven through call histories incl. suspend/resume with edge/random arguments and I/O buffers; per call the C's return value / status string, source and destination ri/wi, hash of bytes written, slice argument contents and all getters are compared with the trace of a reference interpreter of the Wuffs semantics. Programs on which the interpreter raised a safety or fact event are excluded. Two known findings (a resumed coroutine that ends through the C's error/note exit keeps its suspension point).",
     "The interpreter is trusted framework code (validated against production C on ~250 hand-written programs). SIMD, pixel types, tokens, tables and `use` are outside its subset; those constructs are only covered indirectly by C07/C09.",
     "runtime monitoring: differential trace oracle (reference interpreter vs executions of the emitted C, two builds)", "DESIGN.md §5 C04, §3.3")
 chk("C10", "exploration",
-    "Every std package's generated C is compiled alone into a shared object and dlopen'ed (-z now) by a loader that, inside the running process, compares writable non-RELRO segments and PT_TLS with a control object, re-hashes them after the workload, classifies every undefined and exported dynamic symbol against an allow-list derived from the parsed sources (pub funcs and per-struct helpers), probes every *__alloc under an interposed allocator, and runs decodes inside SECCOMP_MODE_STRICT (any system call kills the child); receiver and buffers are memcmp'ed around every public pure method in the loader and in seeded C08-style histories on the ASan driver.",
-    "One compiler/flag set (gcc -O2 -fPIC -fno-stack-protector -fno-builtin). Allocator/syscall absence is observed on the paths the decode corpus reaches. Generated (non-std) packages are not yet loaded.",
+    "Every std package's generated C is compiled alone into a shared object and dlopen'ed (-z now) by a loader that, inside the running process, compares writable non-RELRO segments and PT_TLS with a control object, re-hashes them after the workload, classifies every undefined and exported dynamic symbol against an allow-list derived from the parsed sources (pub funcs and per-struct helpers), probes every *__alloc under an interposed allocator, and runs decodes inside SECCOMP_MODE_STRICT (any system call kills the child); receiver and buffers are memcmp'ed around every public pure method in the loader and in seeded C08-style histories on the ASan driver. Generated programs: every call of an unmarked (pure) method accepted by the real checker is bracketed by a hash of the receiver and of all argument memory in the reference interpreter, incl. a near-miss family that tries every route from a pure method to a store or an impure call.",
+    "One compiler/flag set (gcc -O2 -fPIC -fno-stack-protector -fno-builtin). Allocator/syscall absence is observed on the paths the decode corpus reaches. Generated (non-std) packages are judged for purity by the interpreter, not loaded as shared objects.",
     "runtime monitoring: process-level monitors (seccomp strict mode, allocator interposition, run-time enumeration of the loaded object's segments and dynamic symbols, memcmp around pure calls)", "DESIGN.md §5 C10")
 chk("C11", "exploration",
-    "Std sources, ~380 hand-written edge files, exhaustive truncations of six small files, nesting deepeners around MaxExprDepth/MaxTypeExprDepth, extreme literals/identifiers, random bytes, and token-, line- and tree-level mutants of every source file are pushed through the real Tokenize, Parse, Render and Check under recover() in a child with CPU and address-space limits; accepted packages go through the real `wuffs-c gen` and gcc -fsyntax-only. Panics, fatal errors, budget overruns and gcc rejections are violations, keyed by (function, message class). Ten genuine defects found this way are repaired by fix: commits.",
+    "Std sources, ~400 hand-written edge files (incl. struct declaration order / cycles through 0-3 array levels and code-generator shapes met by the program generator), every quoted literal made of up to three pieces from an alphabet of plain, complete, truncated and malformed escape sequences, exhaustive truncations of six small files, nesting deepeners around MaxExprDepth/MaxTypeExprDepth, extreme literals/identifiers, random bytes, and token-, line- and tree-level mutants of every source file are pushed through the real Tokenize, Parse, Render and Check under recover() in a child with CPU and address-space limits; accepted packages go through the real `wuffs-c gen` and gcc -fsyntax-only. Panics, fatal errors, budget overruns and gcc rejections are violations, keyed by (function, message class). The genuine defects found this way are repaired by fix: commits (known_findings.json).",
     "The CPU budget (60 s per text, texts <= 64 KiB; the largest std file checks in ~0.1 s) is the hang oracle: there is no step counter in the Go tool-chain. gcc is the C compiler; only -fsyntax-only is run per accepted mutant.",
     "runtime monitoring: crash/hang monitors (recover(), exit status, RLIMIT_CPU/RLIMIT_AS) and the C compiler's verdict over mutated and generated source texts", "DESIGN.md §5 C11")
 chk("C13", "exploration",
